@@ -50,18 +50,18 @@ def tasks(tier, seed):
                 continue
             traffics = ["none", "at-ping", "at-deadline", "burst"] if tier == "quick" else ["none", "at-ping", "at-deadline", "before-ping", "two", "burst"]
             payloads = ["k"] if tier == "quick" else ["k", ""]
-            bound = 1 if tier == "quick" else 2
+            bound = 2 if tier == "quick" else 4
             for payload in payloads:
                 for traffic in traffics:
                     if to is not None:
                         for j in range(0, 4 if tier == "thorough" else 3):
-                            ts.append({"kind": "silent", "iv": iv, "to": to, "j": j, "payload": payload, "traffic": traffic, "bound": bound if j <= 1 else min(bound, 1),
+                            ts.append({"kind": "silent", "iv": iv, "to": to, "j": j, "payload": payload, "traffic": traffic, "bound": bound if j <= 1 else min(bound, 2),
                                        "name": "silent/%s/%s/j%d/%s/%s" % (iv, to, j, payload, traffic)})
                         for pat in ("0", "half", "to-q", "to", "alt-0-to", "alt-to-half"):
-                            ts.append({"kind": "responsive", "iv": iv, "to": to, "pat": pat, "payload": payload, "traffic": traffic, "bound": bound if pat in ("to", "to-q") else min(bound, 1),
+                            ts.append({"kind": "responsive", "iv": iv, "to": to, "pat": pat, "payload": payload, "traffic": traffic, "bound": bound if pat in ("to", "to-q") else min(bound, 2),
                                        "name": "responsive/%s/%s/%s/%s/%s" % (iv, to, pat, payload, traffic)})
                     else:
-                        ts.append({"kind": "responsive", "iv": iv, "to": None, "pat": "none", "payload": payload, "traffic": traffic, "bound": 1,
+                        ts.append({"kind": "responsive", "iv": iv, "to": None, "pat": "none", "payload": payload, "traffic": traffic, "bound": 2,
                                    "name": "pings-only/%s/%s/%s" % (iv, payload, traffic)})
     return ts
 
